@@ -269,14 +269,13 @@ class AbstractPySwarms(AbstractMLE):
             ],
             "time": self.timer.time if self.timer else None,
         }
-        pos_history = search_internal.pos_history
+        # The only (position, cost) pairs pyswarms keeps are every particle's personal best:
+        # the cost history is the swarm's best cost per iteration and belongs to no stored position.
+        swarm = search_internal.swarm
 
-        parameter_lists = [
-            param.tolist() for parameters in pos_history for param in parameters
-        ]
-        parameter_lists_2 = [parameters.tolist()[0] for parameters in pos_history]
+        parameter_lists = swarm.pbest_pos.tolist()
 
-        log_posterior_list = search_internal_dict["log_posterior_list"]
+        log_posterior_list = [-0.5 * cost for cost in swarm.pbest_cost]
         log_prior_list = model.log_prior_list_from(parameter_lists=parameter_lists)
         log_likelihood_list = [
             lp - prior for lp, prior in zip(log_posterior_list, log_prior_list)
@@ -285,7 +284,7 @@ class AbstractPySwarms(AbstractMLE):
 
         sample_list = Sample.from_lists(
             model=model,
-            parameter_lists=parameter_lists_2,
+            parameter_lists=parameter_lists,
             log_likelihood_list=log_likelihood_list,
             log_prior_list=log_prior_list,
             weight_list=weight_list,
